@@ -90,7 +90,7 @@ def baseUnique (lt : κ → κ → Bool) (drop : κ → Bool) (keys : List κ) :
   let (_, idx, inv) := npUnique lt data
   { out := (isort natLt idx).filterMap (fun i => data[i]?), idx := idx, inv := inv }
 
-/-- `Rotation.unique` for a non-empty object:
+/-- `Rotation.unique` (an empty object returns empty index arrays, which is what the general path computes):
 ```
 _, idx, inv = np.unique(abcd, axis=0, return_index=True, return_inverse=True)
 idx_argsort = np.argsort(idx); idx_sort = idx[idx_argsort]
